@@ -753,7 +753,7 @@ def grad_concatenate_args(argnum, ans, axis_args, kwargs):
     start = sum(sizes[:-1])
     idxs = [slice(None)] * ans.ndim
     idxs[axis] = slice(start, start + sizes[-1])
-    return lambda g: g[tuple(idxs)]
+    return lambda g: match_complex(args[argnum - 1], g[tuple(idxs)])
 
 
 defvjp_argnum(anp.concatenate_args, grad_concatenate_args)
@@ -920,7 +920,7 @@ def replace_zero(x, val):
 
 
 def array_from_args_gradmaker(argnum, ans, args, kwargs):
-    return lambda g: g[argnum - 2]
+    return lambda g: match_complex(args[argnum], g[argnum - 2])
 
 
 defvjp_argnum(anp.array_from_args, array_from_args_gradmaker)
